@@ -265,6 +265,30 @@ def real_worker(case):
                     out["jacfn"].append({"ok": _mat(jf(t, xs), nv)})
                 except Exception as e:  # noqa: BLE001
                     out["jacfn"].append(_exc(e))
+            # a parameter changed through the simulator after construction: the installed Jacobian must follow
+            plain = [k for k, v in content["pars"] if "v" in v]
+            if plain and pts:
+                try:
+                    k = plain[0]
+                    old = float(Fraction(dict(content["pars"])[k]["v"]))
+                    sim.update_parameter(k, old * 2.0 + 1.0)
+                    jf2 = sim.integrator.jacobian
+                    sm2 = to_symbolic_model(sim.model)
+                    vs2, ps2 = list(sm2.variables.values()), list(sm2.parameters.values())
+                    pv2 = [float(sm2.parameter_values[q]) for q in sm2.parameters]
+                    f_jac2 = sympy.lambdify((vs2, ps2), sm2.jacobian())
+                    def _try(f):
+                        try:
+                            return _mat(f(), nv)
+                        except ZeroDivisionError:
+                            return "ZeroDivisionError"
+
+                    out["jacfn_upd"] = [{"closure": _try(lambda: jf2(t, xs)), "fresh": _try(lambda: f_jac2(xs, pv2))}
+                                        for t, xs in pts]
+                except ZeroDivisionError:
+                    out["jacfn_upd"] = "skipped: division by zero at the updated parameter value"
+                except Exception as e:  # noqa: BLE001
+                    out["jacfn_upd"] = _exc(e)
     except Exception as e:  # noqa: BLE001
         out["jacfn_present"] = _exc(e)
     finally:
@@ -568,6 +592,28 @@ def judge_case(ctx, case, R, M):
               what="Simulator(use_jacobian=True) compiles a Jacobian iff the model converts")
     if not present and not R.get("warned"):
         ctx.violation(sub, R, "fell back to no Jacobian without a warning")
+    upd = R.get("jacfn_upd")
+    if isinstance(upd, dict):
+        ctx.violation(sub, upd, "evaluating the compiled Jacobian after Simulator.update_parameter raised")
+    elif isinstance(upd, str):
+        ctx.hist["jacfn_after_update_skipped"] = ctx.hist.get("jacfn_after_update_skipped", 0) + 1
+    elif upd:
+        for i, u in enumerate(upd):
+            def fl(mtx):
+                return [float("nan") if v in ("nan", "inf", "-inf") else float(Fraction(v)) for row in mtx for v in row]
+
+            if isinstance(u["closure"], str) or isinstance(u["fresh"], str):
+                if u["closure"] != u["fresh"]:
+                    ctx.violation({"content": content, "points": [case["points"][i]]}, u,
+                                  "compiled Jacobian and fresh symbolic Jacobian disagree on definedness after update_parameter")
+                    break
+                continue
+            a, b = fl(u["closure"]), fl(u["fresh"])
+            if len(a) != len(b) or any(not (abs(x - y) <= 1e-9 * max(1.0, abs(x), abs(y))) for x, y in zip(a, b)):
+                ctx.violation({"content": content, "points": [case["points"][i]]}, u,
+                              "compiled Jacobian does not follow Simulator.update_parameter (stale parameter values)")
+                break
+        ctx.hist["jacfn_after_update_checked"] = ctx.hist.get("jacfn_after_update_checked", 0) + 1
     # 3. values
     for i, p in enumerate(case["points"]):
         psub = {"content": content, "points": [p]}
